@@ -65,7 +65,7 @@ def grow_factor_tree(r, attrs, kmax=3):
     return cl
 
 
-KINDS = ['arbitrary', 'rip', 'fgtree', 'loop', 'dense', 'chain', 'star', 'disjoint', 'nested', 'sameset', 'deep']
+KINDS = ['arbitrary', 'rip', 'fgtree', 'loop', 'dense', 'chain', 'star', 'disjoint', 'nested', 'sameset', 'deep', 'ring']
 
 
 def gen_cliques(r, kind, attrs):
@@ -103,6 +103,16 @@ def gen_cliques(r, kind, attrs):
             cl = [A[0:4], A[1:5], [A[2], A[3], A[5]]] + ([[A[3], A[6]]] if n >= 7 else [])
         else:
             cl = [A[i:i + w] for i in range(n - w + 1)]
+    elif kind == 'ring':
+        # maximal cliques arranged in a ring of triples plus measured pairs: a sub-region whose parents have no common ancestor although a chain of
+        # siblings (parents of OTHER regions) links them
+        if n >= 5:
+            P, Q, S, T, U = A[:5]
+            cl = [[P, Q, S], [P, S, U], [S, T, U], [Q, T, U], [P, Q], [Q, T]]
+            if n >= 6:
+                cl.append([U, A[5]])
+        else:
+            cl = [[A[i], A[(i + 1) % n], A[(i + 2) % n]] for i in range(n)] if n >= 4 else [[A[i], A[(i + 1) % n]] for i in range(n)]
     elif kind == 'sameset':
         # the same attribute set named in two orders: two distinct regions
         cl = [[A[i], A[i + 1]] for i in range(n - 1)] or [[A[0]]]
@@ -117,6 +127,12 @@ def gen_cliques(r, kind, attrs):
 
 def gen_case(r, max_cells=1500, nmin=2, nmax=6, kinds=KINDS):
     kind = r.choice(kinds)
+    if kind == 'ring':
+        n = r.choice([5, 5, 6])
+        attrs = r.sample(NAMES, n)
+        dom = [[a, 2] for a in attrs]
+        dom[r.randrange(n)][1] = r.choice([2, 3])
+        return dom, gen_cliques(r, kind, attrs), kind
     n = r.randint(max(nmin, 3 if kind == 'loop' else nmin), nmax)
     if kind == 'deep':
         n = r.choice([5, 6, 7, 7, 7, 8])
